@@ -809,34 +809,34 @@ class ChunkedPlateCarreeSampler(object):
         """
         from .image import Image
 
-        chunk_lon_min, chunk_lon_max, chunk_lat_min, chunk_lat_max = self._chunk_bounds(
-            ichunk
-        )
         data = self._image.chunk_data(ichunk)
         data_img = Image.from_array(data)
         buffer = data_img.mode.make_maskable_buffer(256, 256)
         biy, bix = np.indices((256, 256))
 
         ny, nx = data.shape[:2]
-        dx = nx / (
-            chunk_lon_max - chunk_lon_min
-        )  # pixels per radian in the X direction
-        dy = ny / (chunk_lat_max - chunk_lat_min)  # ditto, for the Y direction
-        lon0 = (
-            chunk_lon_min + 0.5 / dx
-        )  # longitudes of the centers of the pixels with ix = 0
-        lat0 = (
-            chunk_lat_max - 0.5 / dy
-        )  # latitudes of the centers of the pixels with iy = 0
+
+        # Locate each point in the *global* image with exactly the arithmetic of
+        # the whole-map sampler, and only then shift into this chunk. Rounding
+        # chunk-relative coordinates instead lets a point that lies on a chunk
+        # seam fall just outside both of the chunks that share the seam (TOAST
+        # pixel centers do lie exactly on the lon = +-45, +-135 degree
+        # meridians), leaving it without data.
+        cx, cy = self._image.chunk_spec(ichunk)[:2]
+        gny, gnx = self._image.shape[:2]
+        dx = gnx / TWOPI  # pixels per radian in the X direction
+        dy = gny / np.pi  # ditto, for the Y direction
+        lon0 = -np.pi + 0.5 / dx  # longitudes of the centers of the global pixels with ix = 0
+        lat0 = HALFPI - 0.5 / dy  # latitudes of the centers of the global pixels with iy = 0
 
         def plate_carree_planet_sampler(lon, lat):
             lon = (lon + np.pi) % TWOPI - np.pi  # ensure in range [-pi, pi]
             ix = (lon - lon0) * dx
-            ix = np.round(ix).astype(int)
+            ix = np.clip(np.round(ix).astype(int), 0, gnx - 1) - cx
             ok = (ix >= 0) & (ix < nx)
 
             iy = (lat0 - lat) * dy  # *assume* in range [-pi/2, pi/2]
-            iy = np.round(iy).astype(int)
+            iy = np.clip(np.round(iy).astype(int), 0, gny - 1) - cy
             ok &= (iy >= 0) & (iy < ny)
 
             data_img.fill_into_maskable_buffer(buffer, iy[ok], ix[ok], biy[ok], bix[ok])
